@@ -111,14 +111,43 @@ def run_tlc(module, cfg=None, env=None, workers=16, timeout=600, simulate=None,
                 if len(blk) > 25:
                     break
             res.errors.append("\n".join(blk))
-        elif ln.startswith("<<") and ln.rstrip().endswith(">>"):
-            res.prints.append(ln.strip())
+        elif ln.startswith("<<"):
+            # a printed tuple; TLC's pretty printer may wrap it over several lines: match brackets
+            j, buf = i, ""
+            while j < len(lines):
+                buf += (" " if buf else "") + lines[j].strip()
+                if _balanced(buf):
+                    break
+                j += 1
+            res.prints.append(re.sub(r"<<\s+", "<<", re.sub(r"\s+>>", ">>", buf)))
+            i = j
         else:
             mc = _RE_COV.match(ln)
             if mc:
                 res.coverage[mc.group(1)] = (int(mc.group(3)), int(mc.group(4)))
         i += 1
     return res
+
+
+def _balanced(buf):
+    depth, k, instr = 0, 0, False
+    while k < len(buf):
+        c = buf[k]
+        if instr:
+            if c == "\\":
+                k += 1
+            elif c == '"':
+                instr = False
+        elif c == '"':
+            instr = True
+        elif buf.startswith("<<", k):
+            depth += 1
+            k += 1
+        elif buf.startswith(">>", k):
+            depth -= 1
+            k += 1
+        k += 1
+    return depth <= 0 and not instr
 
 
 def parse_tuple(line):
